@@ -14,23 +14,30 @@ def _p(quick, thorough=None, extra=None):
 
 
 PROPS = {
-    'C01': _p(['E2', 'E3']),
-    'C02': _p(['E2', 'E3']),
-    'C03': _p(['E3']),
-    'C04': _p(['E2', 'E3']),
-    'C06': _p(['E3']),
-    'C08': _p(['E3']),
-    'C09': _p(['E2', 'E3']),
-    'C10': _p(['E3']),
-    'C11': _p(['E3']),
-    'C12': _p(['E3']),
-    'C14': _p(['E2', 'E3']),
-    'C15': _p(['E3']),
+    'C01': _p(['E1', 'E2', 'E3', 'E4']),
+    'C02': _p(['E2', 'E3', 'E4']),
+    'C03': _p(['E3', 'E4']),
+    'C04': _p(['E1', 'E2', 'E3']),
+    'C05': _p(['E5']),
+    'C06': _p(['E5', 'E3']),
+    'C08': _p(['E3', 'E4', 'E5']),
+    'C09': _p(['E2', 'E3', 'E4']),
+    'C10': _p(['E4', 'E3']),
+    'C11': _p(['E3', 'E4']),
+    'C12': _p(['E3', 'E4', 'E5']),
+    'C14': _p(['E1', 'E2', 'E3']),
+    'C15': _p(['E3', 'E5']),
 }
 
 ENGINE_INFO = {
     'E2': {'path': 'harness/vf/engines/e2.py + spec/TraceWords.tla, Filters.tla, TraceAPI.tla',
            'kind': 'all arrangements (words over {left,right,both}) of two token sets up to a length bound x measure x threshold on the real filter_pair / index+find_candidates / joins; TLC judges outcomes against the KeepMust envelope and the transcribed algorithms'},
+    'E1': {'path': 'harness/vf/engines/e1.py + spec/TraceArith.tla, Filters.tla (Bounds), TraceAPI.tla',
+           'kind': 'arithmetic envelopes: bound functions, SizeFilter.filter_pair on all count pairs, worst-case witnesses on filter_pair / joins / filter_tables for every token count up to N and a dense threshold grid'},
+    'E4': {'path': 'harness/vf/engines/e4.py + spec/GenSchedules.tla, TraceLaws.tla, TraceAPI.tla',
+           'kind': 'schedules and presentation: every TLC-enumerated right table x n_jobs values x presentation variants; results compared as multisets by TLC (EQ law) and validated against the envelope'},
+    'E5': {'path': 'harness/vf/engines/e5.py + spec/GenCandsets.tla, TraceMatcher.tla',
+           'kind': 'apply_matcher / filter_candset over every TLC-enumerated candidate set and missing pattern'},
     'E3': {'path': 'harness/vf/engines/e3.py + spec/GenTables.tla, GenStrTables.tla, TraceAPI.tla, Semantics.tla',
            'kind': 'TLC enumerates all pairs of small tables; every pair is executed on the real joins / filter_tables under seeded configurations; TLC validates every recorded call against the property-level envelope'},
 }
